@@ -308,6 +308,9 @@ class Check:
             "proof_ok": self.proof_ok,
             "proof_problems": self.proof_problems,
             "verdict": verdict,
+            "violation_details": [
+                {"signature": v["signature"], "what": v["what"]} for v in (self.violations + self.disagreements)[:20]
+            ],
         }
         cov.update(self.extra_cov)
         ev = {
@@ -318,9 +321,7 @@ class Check:
             "coverage": cov,
             "assumptions": self.notes,
             "wall_s": round(time.time() - self.t0, 2),
-            "violations": [
-                {"signature": v["signature"], "what": v["what"]} for v in (self.violations + self.disagreements)[:20]
-            ],
+            "violations": len(self.violations) + len(self.disagreements) + (0 if self.proof_ok else 1),
         }
         with open(os.path.join(EVIDENCE_DIR, self.pid + ".json"), "w") as fh:
             json.dump(ev, fh, indent=1, default=str, ensure_ascii=False)
